@@ -45,9 +45,51 @@ type Case struct {
 	More   []any    `json:"more,omitempty"` // origin layers: the layers after the second one
 	Seqs   [][]Call `json:"seqs"`
 	Repeat int      `json:"repeat,omitempty"`
-	Pre    []Fail   `json:"pre,omitempty"` // serialisations of OTHER documents that fail part-way, performed before the readers start (every round)
-	Pad    int      `json:"pad,omitempty"` // > 0: D1 additionally holds a string leaf of this many bytes (see Padded)
+	Pre    []Fail   `json:"pre,omitempty"`  // serialisations of OTHER documents that fail part-way, performed before the readers start (every round)
+	Pad    int      `json:"pad,omitempty"`  // > 0: D1 additionally holds a string leaf of this many bytes (see Padded)
+	Long   int      `json:"long,omitempty"` // > 0: D1 additionally holds a list of this many items (see Lengthened)
 }
+
+// LongKey is the key of the long list Lengthened adds.
+const LongKey = "zz-long"
+
+// Lengthened returns d with an additional LIST of n items under the key LongKey - documents that hold a list of
+// hundreds or thousands of items (a generated inventory, a table of records) without carrying them in the case
+// file.  Item i is the int leaf i; every 97th item is a small container, every 101st a nested list of two.
+func Lengthened(d any, n int) any {
+	if n <= 0 {
+		return d
+	}
+	x, ok := d.(map[string]any)
+	if !ok {
+		return d
+	}
+	c, ok := x["m"].(map[string]any)
+	if !ok {
+		return d
+	}
+	m := make(map[string]any, len(c)+1)
+	for k, v := range c {
+		m[k] = v
+	}
+	l := make([]any, n)
+	for i := range l {
+		var item any = map[string]any{"t": "int", "v": strconv.Itoa(i)}
+		switch {
+		case i%97 == 5:
+			l[i] = map[string]any{"m": map[string]any{"k": item, "e": map[string]any{"m": map[string]any{}}}}
+		case i%101 == 7:
+			l[i] = []any{item, map[string]any{"t": "string", "v": "s"}}
+		default:
+			l[i] = item
+		}
+	}
+	m[LongKey] = l
+	return map[string]any{"m": m}
+}
+
+// Enlarged: Padded and Lengthened.
+func Enlarged(d any, pad, long int) any { return Lengthened(Padded(d, pad), long) }
 
 // Padded returns d with an additional string leaf of pad bytes under the key "zz-pad" (multi-byte characters
 // every few bytes, so that some character lies across any given offset of a serialised form) - documents whose
